@@ -11,7 +11,7 @@ WATCHDOG = {"quick": 900, "thorough": 7200}
 CASES = {"quick": 160, "thorough": 900}  # per shard
 FLOORS = {
     "quick": {"distinct_nontrivial": 100, "rows_checked": 20000, "cases[GaussianCovCost]": 30,
-              "cases[int64 data]": 25},
+              "cases[int64 data]": 25, "K5_rows_audited": 3000},
     "thorough": {"distinct_nontrivial": 2000, "rows_checked": 500000},
 }
 ANCHORS = [
@@ -35,7 +35,10 @@ RULE = (
     "<=300 thorough, p<=4/6); every admissible [s,e) for n<=25 else a random sample; each row of "
     "one public evaluate() call compared with an interval-valued direct recomputation from "
     "X[s:e] (DESIGN s2), plus shape, batch/order independence and documented-error checks. "
-    "Non-trivial = case with a strictly interior interval checked; distinct by recipe digest."
+    "Plus detector-shaped cut distributions: zoo detectors with built-in scorers run under contract K5, "
+    "which audits a 25% sample of the evaluate() batches the detectors themselves request against the "
+    "same interval models. Non-trivial = case with a strictly interior interval checked; distinct by "
+    "recipe digest."
 )
 ASSUMPTIONS = [
     "reference values computed in extended precision from the slice; tolerance = prefix-sum "
@@ -225,10 +228,61 @@ def exec_case(ctx, r):
                 "first_rows": X[:3].tolist()})
 
 
+def detector_audit_case(ctx, r):
+    """Detector-shaped cut distributions: run a zoo detector (built-in scorers) and let contract K5
+    audit a sample of the evaluate() rows the detector itself requests."""
+    from vf import instrument as I
+    from vf.core import CaseTimeout, time_limit
+
+    X = np.asarray(r["X"], dtype=float)
+    ctx.case()
+    ctx.stat("detector_audit_cases")
+    I.drain()
+    I.AUDIT["rate"] = 0.25
+    before = I.COUNTS["K5"]
+    try:
+        with time_limit(60):
+            det = build(r["det"]).fit(X)
+            det.predict(X)
+    except (CaseTimeout, Exception):
+        ctx.stat("detector_audit_exceptions")
+    finally:
+        I.AUDIT["rate"] = 0.0
+    ctx.stat("K5_rows_audited", I.COUNTS["K5"] - before)
+    for h in I.drain():
+        if h["contract"] == "K5":
+            ctx.violation("contract-K5", "value", f"{short(r['det'])} X[{X.shape[0]}x{X.shape[1]}]: "
+                          f"{h['message']}", r)
+    if I.COUNTS["K5"] - before > 0:
+        ctx.nt(digest(["audit", r["det"], r["X"]]))
+
+
+def make_audit_recipe(rng, tier):
+    from vf.zoo import random_detector
+
+    for _ in range(20):
+        spec, nmin, p = random_detector(rng, dense_events=True, pmax=3)
+        txt = short(spec)
+        if not any(u in txt for u in ("Hash", "Closure", "L1Cost", "ModeCost", "Scripted")):
+            break
+    hi = 40 if tier == "quick" else 120
+    if spec["cls"] == "CircularBinarySegmentation":
+        hi = 20
+    n = int(rng.integers(nmin, nmin + hi))
+    X, _ = gen_data(rng, n, p, ["noise", "mean_changes", "collective", "spikes", "offset", "var_changes"][
+        int(rng.integers(6))])
+    return {"audit": True, "det": spec, "X": X}
+
+
 def run(ctx):
     for _ in range(CASES[ctx.tier]):
         exec_case(ctx, make_recipe(ctx.rng, ctx.tier))
+    for _ in range(CASES[ctx.tier] // 2):
+        detector_audit_case(ctx, make_audit_recipe(ctx.rng, ctx.tier))
 
 
 def replay(ctx, sub, recipe):
-    exec_case(ctx, recipe)
+    if recipe.get("audit"):
+        detector_audit_case(ctx, recipe)
+    else:
+        exec_case(ctx, recipe)
